@@ -215,6 +215,33 @@ impl C16 {
                 }
             }
         }
+        // suffix clip penalties alone never matter for global alignment, banded or not (the banded code does not read them),
+        // whatever was called before on the same aligner
+        if given_clips[1] != MIN_SCORE || given_clips[3] != MIN_SCORE {
+            let suffix_only = Sc { clips: [MIN_SCORE, given_clips[1], MIN_SCORE, given_clips[3]], tbl: sc.tbl, ..*sc };
+            let r3 = guard(|| {
+                let mut a = Aligner::new(suffix_only.scoring(), r);
+                let w = r.len().max(q.len());
+                let g1 = a.global(q).alignment().score;
+                let b1 = a.global_banded(q, w + 1).alignment().score;
+                let g2 = a.global(q).alignment().score;
+                let b2 = Aligner::new(suffix_only.scoring(), r).global_banded(q, w).alignment().score;
+                [g1, b1, g2, b2]
+            });
+            ctx.eval(4);
+            ctx.count("global_alignments_with_suffix_clip_penalties_only", 1);
+            match r3 {
+                Err(p) => ctx.violation(&format!("poa:linear:panic:{}", panic_site(&p)), desc(format!("scoring with suffix clip penalties {:?}: {}", suffix_only.clips, p))),
+                Ok(v) => {
+                    if v.iter().any(|&x| x != exp) {
+                        ctx.violation(
+                            "poa:linear:wide-band-score-differs",
+                            desc(format!("scoring carries only suffix clip penalties {:?}: global / banded after global / global again / banded on a fresh aligner = {:?}, expected {}", suffix_only.clips, v, exp)),
+                        );
+                    }
+                }
+            }
+        }
         let res = guard(|| {
             // every second time the scoring is built through the public constructor instead of a struct literal
             let mut a = if (r.len() + q.len()) % 2 == 0 {
